@@ -1106,11 +1106,13 @@ def edge_guards(fn, edge, target, result_local=None, _depth=0):
     A later switch on a local f stands for the edge(s) when one of its edges dominates the target and every definition
     of f that can produce that switch value lies behind `edge` (or *is* the value of the test itself, `result_local`)."""
     edges = [tuple(e) for e in edge] if (edge and isinstance(edge[0], (list, tuple))) else [tuple(edge)]
-    behind = (lambda s_: fn.edge_dominates_plain(edges[0], s_)) if len(edges) == 1 else (lambda s_: s_ not in fn.reach(fn.entry(), no_edges=edges))
-    if behind(target):
+    behind0 = (lambda s_: fn.edge_dominates_plain(edges[0], s_)) if len(edges) == 1 else (lambda s_: s_ not in fn.reach(fn.entry(), no_edges=edges))
+    if behind0(target):
         return True
     if _depth > 3:
         return False
+    # a definition of the recorded decision lies behind the edge -- plainly, or itself through a recorded decision (one level)
+    behind = lambda s_: behind0(s_) or (_depth < 1 and edge_guards(fn, edge, s_, None, _depth + 2))
     for site, t, local, neg, ds in fn.flag_switches():
         for val in ("true", "false"):
             e2 = fn.edge_of(site, other_bool(val) if neg else val)
